@@ -259,6 +259,7 @@ type muxCase struct {
 	role  string // server: plugin accepts / host dials; client: host accepts / plugin dials
 	ops   []muxOp
 	delay int // ms at grpcbroker.accept.mux-mid
+	late  int // ms between broker.Accept(id) returning and the listener being served (0: AcceptAndServe)
 }
 
 func (c *muxCase) line() string {
@@ -270,12 +271,13 @@ func (c *muxCase) line() string {
 			ps = append(ps, fmt.Sprintf("%c:%d", o.kind, o.id))
 		}
 	}
-	return fmt.Sprintf("C08 role=%s ops=%s delay=%d", c.role, strings.Join(ps, ","), c.delay)
+	return fmt.Sprintf("C08 role=%s ops=%s delay=%d late=%d", c.role, strings.Join(ps, ","), c.delay, c.late)
 }
 
 func muxCaseFromLine(m map[string]string) *muxCase {
 	c := &muxCase{role: m["role"]}
 	fmt.Sscanf(m["delay"], "%d", &c.delay)
+	fmt.Sscanf(m["late"], "%d", &c.late)
 	for _, s := range splitComma(m["ops"]) {
 		if s == "m" {
 			c.ops = append(c.ops, muxOp{kind: 'm'})
@@ -309,6 +311,10 @@ func runMuxCase(c *muxCase) (impl string, pred string) {
 	accept := func(id uint32) {
 		go func() {
 			defer func() { recover() }()
+			if c.late > 0 {
+				servePingPongLater(acceptor, id, time.Duration(c.late)*time.Millisecond)
+				return
+			}
 			servePingPong(acceptor, id)
 		}()
 	}
@@ -436,6 +442,15 @@ func init() {
 					cases = append(cases,
 						&muxCase{role: role, delay: delay, ops: []muxOp{{'m', 0}, {'a', id}, {'d', id}, {'m', 0}}},
 						&muxCase{role: role, delay: delay, ops: []muxOp{{'m', 0}, {'d', id}, {'a', id}, {'m', 0}}})
+				}
+			}
+			// the listener is served only some time after Accept returned: the announced stream must wait for it
+			if delay == 0 {
+				for _, role := range []string{"server", "client"} {
+					cases = append(cases,
+						&muxCase{role: role, late: 400, ops: []muxOp{{'m', 0}, {'a', 21}, {'d', 21}, {'m', 0}}},
+						&muxCase{role: role, late: 400, ops: []muxOp{{'d', 22}, {'a', 22}, {'m', 0}}},
+						&muxCase{role: role, late: 400, ops: []muxOp{{'a', 23}, {'d', 23}, {'d', 24}, {'a', 24}, {'m', 0}}})
 				}
 			}
 			// sequential histories of several ids with mixed orders
